@@ -83,7 +83,10 @@ func c06NewWorld() *c06World {
 	w := &c06World{}
 	w.expiry = []time.Duration{time.Second, 10 * time.Second, 7 * 24 * time.Hour}[rt.Choose("expiry", 3)]
 	w.nfExpiry = []time.Duration{time.Second, time.Minute}[rt.Choose("notFoundExpiry", 2)]
-	w.rowVer = int64(rt.Choose("rowVersion", 2)) + 1
+	w.rowVer = 1
+	if rt.Tier() > 0 {
+		w.rowVer = int64(rt.Choose("rowVersion", 2)) + 1
+	}
 	return w.build()
 }
 
